@@ -28,12 +28,15 @@ def sym(name: str) -> Poly:
     return Poly.atom(('sym', name))
 
 
-L, H, S, Q, I = sym('l'), sym('h'), sym('s'), sym('q'), sym('i')
+L, H, S, Q, I, P = sym('l'), sym('h'), sym('s'), sym('q'), sym('i'), sym('p')
 FFT = S + H.scale(2)  # fft_size = step + overlap
 AXIOMS = [
     ((Q + Poly.const(1)) * S - (L + H.scale(2)), '(q+1)*s >= l + 2h  [nblock = ceil((l + 2h)/s)]'),
     (S - Poly.const(1), 's >= 1  [fft_size >= 2K-1 is enforced by the constructor]'),
     (L - Poly.const(1), 'l >= 1'),
+    (L + H.scale(2) - Poly.const(1) - Q * S, 'q*s <= l + 2h - 1  [nblock = ceil((l + 2h)/s)]'),
+    ((P + Poly.const(1)) * S - L, '(p+1)*s >= l  [p + 1 = ceil(l/s)]'),
+    (L - Poly.const(1) - P * S, 'p*s <= l - 1  [p + 1 = ceil(l/s)]'),
 ]
 
 
@@ -68,6 +71,8 @@ def certificate(e: Poly) -> str | None:
 class Arr:
     n: Poly  # length of the last axis
     lead: tuple = ()  # lengths of the leading (batch) axes, outermost first
+    written: Any = None  # for a buffer created empty and filled by a block loop: the prefix [0, written) that was computed
+    tile: Any = None  # (start, length) of the last dynamic update of the buffer inside a loop body
 
     @property
     def dims(self) -> tuple:
@@ -101,10 +106,27 @@ class LenInterp:
     obligations: list[Obligation] = field(default_factory=list)
     problems: list[tuple[ast.AST, str]] = field(default_factory=list)
     depth: int = 0
+    pending: list = field(default_factory=list)
 
     # ------------------------------------------------------------------ helpers
     def need(self, node: ast.AST, what: str, expr: Poly) -> None:
         self.obligations.append(Obligation(node, what, expr.normal(), certificate(expr)))
+
+    def ceildiv(self, num: Any, den: Any, node: ast.AST) -> Poly:
+        """ceil(num / den) for the two block counts the kernels use: each is a symbol defined by its two axioms."""
+        if isinstance(num, Poly) and isinstance(den, Poly) and (den - S).is_zero():
+            if (num - L - H.scale(2)).is_zero():
+                return Q + Poly.const(1)  # ceil((l + 2h) / s) = q + 1: the definition of the symbol q
+            if (num - L).is_zero():
+                return P + Poly.const(1)  # ceil(l / s) = p + 1: the definition of the symbol p
+        raise Incomplete(site(node), f'ceiling of ({num}) / ({den}) is neither (l + overlap) / step nor l / step')
+
+    def loop_need(self, node: ast.AST, text: str, end: Poly, length: Poly) -> None:
+        """A bound on a position that depends on the block index: decided for the last block once the trip count is known."""
+        if ('sym', 'i') in {a for mono in end.normal().t for a, _ in mono}:
+            self.pending.append((node, text, end, length))
+        else:
+            self.need(node, text.replace('{top}', str(end.normal())), length - end)
 
     def method(self, name: str) -> ast.FunctionDef | None:
         for n in self.cls_node.body:
@@ -220,6 +242,17 @@ class LenInterp:
                     return a - b
                 if isinstance(e.op, ast.Mult):
                     return a * b
+                if isinstance(e.op, ast.Div):
+                    return ('ratio', a, b)
+                if isinstance(e.op, ast.FloorDiv) and (b - S).is_zero():
+                    # ceiling division spelled with floor division: (a + s - 1) // s, and -(-a // s)
+                    if nonneg((a - S + Poly.const(1)).normal()) or (a - S + Poly.const(1) - L).is_zero() or (a - S + Poly.const(1) - L - H.scale(2)).is_zero():
+                        try:
+                            return self.ceildiv((a - S + Poly.const(1)).normal(), b, e)
+                        except Incomplete:
+                            pass
+                    if nonneg((-a).normal()):
+                        return -self.ceildiv((-a).normal(), b, e)
                 if isinstance(e.op, ast.FloorDiv) and (b - Poly.const(2)).is_zero():
                     # only (2h + 1) // 2 = h and 2h // 2 = h are needed
                     if (a - H.scale(2) - Poly.const(1)).is_zero() or (a - H.scale(2)).is_zero():
@@ -255,6 +288,8 @@ class LenInterp:
                 if e.attr == 'fft_size':
                     return FFT
                 return ('selfattr', e.attr)
+            if isinstance(base, tuple) and len(base) == 2 and base[0] == 'record' and e.attr in base[1]:
+                return base[1][e.attr]
             if isinstance(base, Arr):
                 if e.attr == 'size':
                     return base.total
@@ -316,6 +351,8 @@ class LenInterp:
         self.need(node, f'slice start {lo} >= 0', lo)
         self.need(node, f'slice stop {hi} <= length {n}', n - hi)
         self.need(node, f'slice start {lo} <= stop {hi}', hi - lo)
+        if base.written is not None:
+            self.need(node, f'the samples [{lo}, {hi}) that are returned were all computed: the block loop fills [0, {base.written})', self._subst(base.written, env) - hi)
         return Arr(hi - lo)
 
     def callexpr(self, e: ast.Call, env: dict[str, Any]) -> Any:
@@ -361,23 +398,53 @@ class LenInterp:
         q = self.world.qualify(module_of(e), f) or ''
         if q.endswith('.ceil') and len(e.args) == 1 and isinstance(e.args[0], ast.BinOp) and isinstance(e.args[0].op, ast.Div):
             num, den = self.ev(e.args[0].left, env), self.ev(e.args[0].right, env)
-            if isinstance(num, Poly) and isinstance(den, Poly) and (num - L - H.scale(2)).is_zero() and (den - S).is_zero():
-                return Q + Poly.const(1)  # nblock = ceil((l + 2h) / s) = q + 1: the definition of the symbol q
-            raise Incomplete(site(e), f'ceiling of {ast.unparse(e.args[0])[:40]} is not the block count (l + overlap) / step')
+            return self.ceildiv(num, den, e)
+        if isinstance(f, ast.Name) and f.id == 'range' and f.id not in env and 1 <= len(e.args) <= 3:
+            a = [self.ev(x, env) for x in e.args]
+            if not all(isinstance(x, Poly) for x in a):
+                raise Incomplete(site(e), 'range over something outside the length language')
+            if len(a) == 1:
+                return ('range', Poly(), a[0], Poly.const(1))
+            return ('range', a[0], a[1], a[2] if len(a) == 3 else Poly.const(1))
+        if isinstance(f, ast.Name) and f.id == 'len' and f.id not in env and len(e.args) == 1:
+            v = self.ev(e.args[0], env)
+            if isinstance(v, tuple) and len(v) == 4 and v[0] == 'range':
+                _, lo, hi, step = v
+                if (step - Poly.const(1)).is_zero():
+                    return hi - lo
+                return self.ceildiv(hi - lo, step, e)
+            if isinstance(v, Arr):
+                return v.dims[0]
+            if isinstance(v, tuple):
+                return Poly.const(len(v))
+            raise Incomplete(site(e), 'len of something outside the length language')
+        # a private record type (NamedTuple / dataclass) of the module: its fields, by name
+        if isinstance(f, ast.Name) and f.id not in env:
+            d = module_of(e).defs.get(f.id)
+            if isinstance(d, ast.ClassDef):
+                names = [n.target.id for n in d.body if isinstance(n, ast.AnnAssign) and isinstance(n.target, ast.Name)]
+                if names and len(e.args) <= len(names):
+                    rec = {n: self.ev(a, env) for n, a in zip(names, e.args)}
+                    for k in e.keywords:
+                        if k.arg in names:
+                            rec[k.arg] = self.ev(k.value, env)
+                    if set(rec) == set(names):
+                        return ('record', rec)
         args = [self.ev(a, env) for a in e.args]
         kw = {}
         for k in e.keywords:
             if k.arg and k.arg != 'dtype':
                 kw[k.arg] = self.ev(k.value, env)
         short = q.split('jax.numpy.')[-1] if q.startswith('jax.numpy.') else q.split('jax.lax.')[-1] if q.startswith('jax.lax.') else q
-        if q in ('int', 'numpy.ceil'):
+        if q in ('int',):
             return args[0]
         if isinstance(f, ast.Name) and f.id == 'int':
             return args[0]
         if q.startswith('jax.numpy.') or q.startswith('jax.lax.') or q.startswith('numpy.'):
             if short == 'ceil':
-                # nblock = ceil((l + 2h) / s): q + 1 by definition of the symbol q
-                return Q + Poly.const(1)
+                if isinstance(args[0], tuple) and len(args[0]) == 3 and args[0][0] == 'ratio':
+                    return self.ceildiv(args[0][1], args[0][2], e)
+                raise Incomplete(site(e), 'ceiling of something that is not a ratio of lengths')
             if short == 'concatenate':
                 parts = args[0]
                 axis = kw.get('axis', Poly())
@@ -428,33 +495,49 @@ class LenInterp:
                     return Arr(a)
             if short in ('zeros', 'ones', 'empty'):
                 n = args[0]
-                return Arr(n[0] if isinstance(n, tuple) else n)
+                return Arr(n[0] if isinstance(n, tuple) else n, written=Poly() if short in ('zeros', 'empty') else None)
             if short == 'dynamic_slice':
                 base, start, size = args[0], args[1][0], args[2][0]
-                top = start.subst({('sym', 'i'): Q}).normal()
                 self.need(e, f'dynamic_slice start {start} >= 0', start.subst({("sym", "i"): Poly()}))
-                self.need(e, f'dynamic_slice end {top + size} (last block) <= length {base.n}: otherwise the start is clamped silently', base.n - top - size)
+                self.loop_need(e, 'dynamic_slice end {top} (last block) <= length ' + str(base.n) + ': otherwise the start is clamped silently', start + size, base.n)
                 return type(base)(size)
             if short == 'dynamic_update_slice':
                 base, upd, start = args[0], args[1], args[2][0]
-                top = start.subst({('sym', 'i'): Q}).normal()
-                self.need(e, f'dynamic_update_slice end {top + upd.n} (last block) <= length {base.n}: otherwise the update is shifted silently', base.n - top - upd.n)
-                return Arr(base.n)
+                self.loop_need(e, 'dynamic_update_slice end {top} (last block) <= length ' + str(base.n) + ': otherwise the update is shifted silently', start + upd.n, base.n)
+                return Arr(base.n, written=base.written, tile=(start, upd.n))
             if short == 'fori_loop':
                 lo, hi, body, init = args
                 if not (isinstance(lo, Poly) and lo.is_zero()):
                     raise Incomplete(site(e), 'fori_loop not starting at 0')
                 trip = hi
-                if not (trip - Q - Poly.const(1)).is_zero():
-                    self.problems.append((e, f'the block loop runs {trip} times, not nblock = q+1'))
+                if not isinstance(trip, Poly):
+                    raise Incomplete(site(e), 'block loop with a trip count outside the length language')
                 _, fn, cenv = body
                 sub = dict(cenv)
                 ps = [a.arg for a in fn.args.args]
                 sub[ps[0]] = I
                 sub[ps[1]] = init
+                pending, self.pending = self.pending, []
                 out = self.call(fn, sub)
+                mine, self.pending = self.pending, pending
+                last = trip - Poly.const(1)
+                for node, text, end, length in mine:
+                    top = end.subst({('sym', 'i'): last}).normal()
+                    self.need(node, text.replace('{top}', str(top)), length - top)
                 if isinstance(out, Arr) and isinstance(init, Arr) and not (out.n - init.n).is_zero():
                     self.problems.append((e, f'the loop carry changes length: {init.n} -> {out.n}'))
+                if isinstance(out, Arr) and isinstance(init, Arr) and init.written is not None:
+                    written = None
+                    if out.tile is not None:
+                        start, size = out.tile
+                        stride = (start - start.subst({('sym', 'i'): I - Poly.const(1)})).normal()
+                        at0 = start.subst({('sym', 'i'): Poly()}).normal()
+                        if at0.is_zero() and certificate(size - stride) is not None and certificate(stride - Poly.const(1)) is not None:
+                            # blocks of `size` samples written every `stride` <= size samples from 0: [0, (trip-1)*stride + size)
+                            written = (last * stride + size).normal()
+                    if written is None:
+                        raise Incomplete(site(e), 'the block loop does not fill its buffer by contiguous blocks from position 0')
+                    return Arr(init.n, written=written)
                 return init
             if short == 'asarray':
                 return args[0]
@@ -475,7 +558,7 @@ def witness(e: Poly) -> dict | None:
                 q = math.ceil((l + 2 * h) / s) - 1
                 if q < 0:
                     continue
-                vals = {('sym', 'l'): l, ('sym', 'h'): h, ('sym', 's'): s, ('sym', 'q'): q}
+                vals = {('sym', 'l'): l, ('sym', 'h'): h, ('sym', 's'): s, ('sym', 'q'): q, ('sym', 'p'): math.ceil(l / s) - 1}
                 total = Fraction(0)
                 ok = True
                 for mono, c in e.normal().t.items():
